@@ -51,6 +51,40 @@ fn gates() -> Vec<(String, Gate)> {
         ("bit1".into(), g.narrow("bit1")),
         ("bit10".into(), g.narrow("bit10")),
     ]
+    .into_iter()
+    .chain(long_gates())
+    .collect()
+}
+
+/// Step strings of 15 .. 1030 bytes that agree everywhere except in their final byte (siblings below a deep
+/// path), plus a deep parent and its child: key derivation has to depend on the whole string.
+fn long_gates() -> Vec<(String, Gate)> {
+    let mut v = Vec::new();
+    for len in [15usize, 16, 17, 31, 32, 33, 63, 64, 65, 120, 127, 128, 129, 255, 256, 257, 512, 1030] {
+        // levels of 9 characters + '/' each, the rest in the last level
+        let mut g = Gate::default();
+        let mut used = 0;
+        let mut level = 0;
+        while used + 10 + 6 <= len {
+            g = g.narrow(&format!("level{level:04}"));
+            used += 10;
+            level += 1;
+        }
+        // "/" + body + final byte
+        let body = "x".repeat(len.saturating_sub(used + 2));
+        for last in ["0", "1"] {
+            let gg = g.narrow(&format!("{body}{last}"));
+            v.push((format!("long{len}/{last}"), gg));
+        }
+        if len >= 128 {
+            v.push((format!("long{len}/parent"), g.clone()));
+            v.push((format!("long{len}/child"), g.narrow("c")));
+        }
+    }
+    // one entry per distinct step string (several lengths share their parent path)
+    let mut seen = std::collections::HashSet::new();
+    v.retain(|(_, g)| seen.insert(g.as_ref().to_string()));
+    v
 }
 
 struct Distinct {
@@ -279,6 +313,60 @@ async fn negotiated<const S: usize>(seed: u64) -> Vec<Result<Vec<[(u128, u128); 
     ret
 }
 
+/// The leader shard of helper `fh` gives up right before distributing the seeds: it opens the seed channels to
+/// its sibling shards and closes them without a record. Returns, for the shards 1.. of `fh`, Ok(values) / Err, and
+/// the values every shard of the right neighbour (honest) derived.
+async fn leader_fault<const S: usize>(seed: u64, fh: usize) -> (Vec<Result<[(u128, u128); 3], String>>, Vec<Result<[(u128, u128); 3], String>>) {
+    use crate::{helpers::{ChannelId, TotalRecords}, protocol::prss::Seed};
+    let mut cfg = TestWorldConfig::default();
+    cfg.seed = seed;
+    cfg.timeout = None;
+    let world = TestWorld::<WithShards<S>>::with_shards(&cfg);
+    let ctxs = world.contexts();
+    let mut futs = Vec::new();
+    for hctx in ctxs {
+        for ctx in hctx {
+            let world = &world;
+            futs.push(async move {
+                let role = ctx.role();
+                let shard = usize::from(ctx.shard_id());
+                let gateway = world.gateway(role, ctx.shard_id());
+                let gate = Gate::default().narrow("xs-setup");
+                if role as usize == fh && ctx.is_leader() {
+                    for peer in ctx.peer_shards() {
+                        gateway
+                            .get_shard_sender::<(Seed, Seed)>(&ChannelId::new(peer, gate.clone()), TotalRecords::ONE)
+                            .close(RecordId::FIRST)
+                            .await;
+                    }
+                    return (role as usize, shard, Err("faulted leader".to_string()));
+                }
+                let r = catch_fut(setup_cross_shard_prss(gateway, &gate, ctx.narrow("xs-prss").prss(), ctx.clone())).await;
+                let out = match r {
+                    Ok(Ok(ep)) => {
+                        let p = ep.indexed(&Gate::default().narrow("xs-use"));
+                        Ok([p.generate_values(0u32), p.generate_values(1u32), p.generate_values(77u32)])
+                    }
+                    Ok(Err(e)) => Err(format!("{e:?}")),
+                    Err(p) => Err(format!("panic: {p}")),
+                };
+                (role as usize, shard, out)
+            });
+        }
+    }
+    let res = join_all(futs).await;
+    let mut faulted: Vec<Option<Result<[(u128, u128); 3], String>>> = vec![None; S];
+    let mut right: Vec<Option<Result<[(u128, u128); 3], String>>> = vec![None; S];
+    for (role, shard, out) in res {
+        if role == fh {
+            faulted[shard] = Some(out);
+        } else if role == (fh + 1) % 3 {
+            right[shard] = Some(out);
+        }
+    }
+    (faulted.into_iter().skip(1).map(Option::unwrap).collect(), right.into_iter().map(Option::unwrap).collect())
+}
+
 fn check_cross(rec: &mut Recorder, vals: &[Result<Vec<[(u128, u128); 3]>, String>], which: &str, shards: usize, case: usize) {
     rec.eval();
     let mut ok: Vec<&Vec<[(u128, u128); 3]>> = Vec::new();
@@ -383,8 +471,46 @@ fn verif_c06_negotiated() {
                 check_cross(&mut rec, &v[3..6], "context_cross_shard_prss", shards, case);
             }
         }
+        // (c) the same setup with a leader that closes its seed channels without sending: a sibling shard must
+        //     fail, or hold the randomness its neighbours hold - never succeed with randomness of its own
+        let fh = case % 3;
+        let r = vlib::run_paused(Duration::from_secs(60), async move {
+            match shards {
+                2 => leader_fault::<2>(seed ^ 0x66, fh).await,
+                3 => leader_fault::<3>(seed ^ 0x66, fh).await,
+                _ => leader_fault::<5>(seed ^ 0x66, fh).await,
+            }
+        });
+        rec.eval();
+        match r {
+            Paused::Quiescent => rec.count("leader_fault_siblings_wait_forever"),
+            Paused::Done((siblings, right)) => {
+                let neighbour: Vec<&[(u128, u128); 3]> = right.iter().filter_map(|r| r.as_ref().ok()).collect();
+                let oks: Vec<&[(u128, u128); 3]> = siblings.iter().filter_map(|r| r.as_ref().ok()).collect();
+                rec.add("leader_fault_siblings_failed", (siblings.len() - oks.len()) as u64);
+                let mut bad = oks.windows(2).any(|w| w[0] != w[1]);
+                for v in &oks {
+                    if let Some(n) = neighbour.first() {
+                        if (0..3).any(|k| v[k].1 != n[k].0) {
+                            bad = true;
+                        }
+                    }
+                }
+                if bad {
+                    rec.violation(
+                        "a shard whose leader never sent the seeds reports success with cross-shard randomness that differs from its sibling / neighbour shards",
+                        json!({"kind": "cross_shard_fallback_randomness", "path": "gen_and_distribute"}),
+                        json!({"case": case, "shards": shards, "faulted_helper": fh,
+                               "siblings": siblings.iter().map(|r| r.as_ref().map(|_| "ok").map_err(|e| e.chars().take(80).collect::<String>())).collect::<Vec<_>>()}),
+                    );
+                } else {
+                    rec.count("leader_fault_cases_held");
+                    rec.distinct(&("leader_fault", shards, fh, case));
+                }
+            }
+        }
         if rec.want_sample() {
-            rec.sample(json!({"case": case, "negotiate": "3 helpers", "cross_shard_shards": shards}));
+            rec.sample(json!({"case": case, "negotiate": "3 helpers", "cross_shard_shards": shards, "leader_fault_on_helper": fh}));
         }
     }
     rec.finish();
